@@ -109,6 +109,35 @@ def as_lin(x):
                 return ALin({('bits', tuple(v) + (0,) * (8 - len(v))): 1})
     return None
 
+MARKER_BYTES = (0xaa, 0x55)
+
+def item_eq(a, b):
+    """equality of two byte items: True / False / None (unknown).  ('x', tag) is a byte known to be neither 0xAA nor 0x55."""
+    if a == b and a[0] in ('c', 'x', 'b'):
+        return True
+    if a[0] == 'c' and b[0] == 'c':
+        return a[1] == b[1]
+    for p, q in ((a, b), (b, a)):
+        if p[0] == 'x' and q[0] == 'c':
+            return False if q[1] in MARKER_BYTES else None
+    return None
+
+def bytes_find(hay, needle, start=0):
+    """index of the first occurrence of needle (items) in hay (items) at or after start, -1 if none; raises Unknown when a comparison is undecided"""
+    n, m = len(hay), len(needle)
+    for i in range(max(start, 0), n - m + 1):
+        ok = True
+        for j in range(m):
+            e = item_eq(hay[i + j], needle[j])
+            if e is None:
+                raise Unknown('a byte comparison inside find() is undecided')
+            if not e:
+                ok = False
+                break
+        if ok:
+            return i
+    return -1
+
 def sym_byte(src, i):
     return ('b', tuple(((src, i), k) for k in range(8)))
 
@@ -154,6 +183,57 @@ class AStr:
 class AObj:
     def __init__(self, **attrs):
         self.attrs = dict(attrs)
+
+class _GenClose(BaseException):
+    pass
+
+class LazyGen:
+    """a generator function whose body has effects between items: run item by item (in a helper thread that strictly alternates with the
+    consumer), so that what the consumer does between two items and what the generator does on resumption interleave as in Python"""
+    def __init__(self, interp, fn, env):
+        import queue
+        self.interp, self.fn, self.env = interp, fn, env
+        self.out = queue.Queue()
+        self.resume = queue.Queue()
+        self.started = False
+        self.done = False
+    def __iter__(self):
+        return self
+    def _run(self):
+        import threading
+        threading.current_thread().n2k_gen = self
+        try:
+            try:
+                self.interp.block(self.fn.body, self.env)
+            except ReturnSignal:
+                pass
+            self.out.put(('return', None))
+        except _GenClose:
+            self.out.put(('closed', None))
+        except BaseException as e:
+            self.out.put(('exc', e))
+    def __next__(self):
+        import threading
+        if self.done:
+            raise StopIteration
+        if not self.started:
+            self.started = True
+            t = threading.Thread(target=self._run, daemon=True)
+            t.start()
+        else:
+            self.resume.put('next')
+        kind, val = self.out.get()
+        if kind == 'yield':
+            return val
+        self.done = True
+        if kind == 'exc':
+            raise val
+        raise StopIteration
+    def close(self):
+        if self.started and not self.done:
+            self.resume.put('close')
+            self.out.get()
+        self.done = True
 
 class AFunc:
     """a function value: a def of the interpreted module (or a nested def with the environment it closes over)"""
@@ -274,22 +354,33 @@ class Interp:
         for p, d in zip(params[len(params) - len(defaults):], defaults):
             if p not in env:
                 env[p] = self.expr(d, {})
-        is_gen = any(isinstance(n, (ast.Yield, ast.YieldFrom)) for st in fn.body for n in _walk_own(st))
+        is_gen = getattr(fn, '_n2k_is_gen', None)
+        if is_gen is None:
+            is_gen = any(isinstance(n, (ast.Yield, ast.YieldFrom)) for st in fn.body for n in _walk_own(st))
+            try:
+                fn._n2k_is_gen = is_gen
+            except AttributeError:
+                pass
         if is_gen:
             # a generator function is run to exhaustion at the call (its items collected): only when its body cannot affect, or be affected by,
             # what the consumer does between two items -- no stores outside its locals, no calls besides pure built-ins and string formatting
+            lazy = False
             for st in fn.body:
                 for n in _walk_own(st):
                     if isinstance(n, (ast.Attribute, ast.Subscript)) and isinstance(n.ctx, (ast.Store, ast.Del)):
-                        raise Unknown(f"generator {fn.name} writes state between items (line {n.lineno})")
-                    if isinstance(n, (ast.Await, ast.Delete, ast.Global, ast.Nonlocal, ast.YieldFrom)):
+                        lazy = True
+                    if isinstance(n, (ast.Await, ast.Global, ast.Nonlocal, ast.YieldFrom)):
                         raise Unknown(f"generator {fn.name}: {type(n).__name__} at line {n.lineno}")
+                    if isinstance(n, ast.Delete):
+                        lazy = True
                     if isinstance(n, ast.Call):
                         f_ = n.func
                         pure = (isinstance(f_, ast.Name) and f_.id in ('str', 'int', 'len', 'range', 'tuple', 'sorted', 'reversed', 'enumerate', 'zip', 'min', 'max')) or \
                             (isinstance(f_, ast.Attribute) and f_.attr in ('format', 'lower', 'upper', 'join', 'get', 'keys', 'items', 'values'))
                         if not pure:
-                            raise Unknown(f"generator {fn.name} calls {ast.unparse(f_)[:40]} between items (line {n.lineno})")
+                            lazy = True
+            if lazy:
+                return LazyGen(self, fn, env)
             self._yields = getattr(self, '_yields', [])
             self._yields.append([])
             try:
@@ -328,7 +419,14 @@ class Interp:
                 self.assign(s.target, self.expr(s.value, env), env)
         elif isinstance(s, ast.AugAssign):
             cur = self.expr(_load(s.target), env)
-            v = self.binop(s.op, cur, self.expr(s.value, env))
+            rhs = self.expr(s.value, env)
+            if isinstance(s.op, ast.Add) and isinstance(cur, ABytes) and cur.mutable and isinstance(rhs, ABytes):
+                cur.items.extend(rhs.items)          # bytearray += : in place, every alias sees it
+                return
+            if isinstance(s.op, ast.Add) and isinstance(cur, AList) and isinstance(rhs, (AList, tuple, list)):
+                cur.items.extend(rhs.items if isinstance(rhs, AList) else list(rhs))
+                return
+            v = self.binop(s.op, cur, rhs)
             self.assign(s.target, v, env)
         elif isinstance(s, ast.Return):
             raise ReturnSignal(self.expr(s.value, env) if s.value is not None else None)
@@ -338,6 +436,7 @@ class Interp:
         elif isinstance(s, ast.For):
             it = self.expr(s.iter, env)
             try:
+              try:
                 for x in self.iterate(it, s):
                     self.assign(s.target, x, env)
                     try:
@@ -346,6 +445,9 @@ class Interp:
                         continue
                 else:
                     self.block(s.orelse, env)
+              finally:
+                if isinstance(it, LazyGen):
+                    it.close()
             except _Break:
                 pass
         elif isinstance(s, ast.While):
@@ -374,6 +476,26 @@ class Interp:
             for t in s.targets:
                 if isinstance(t, ast.Subscript):
                     o = self.expr(t.value, env)
+                    if isinstance(o, (ABytes, AList)) and isinstance(t.slice, ast.Slice):
+                        if isinstance(o, ABytes) and not o.mutable:
+                            raise PyError('TypeError', s.lineno)
+                        def idx_(x):
+                            if x is None:
+                                return None
+                            v_ = self.expr(x, env)
+                            if isinstance(v_, AInt) and v_.v is not None:
+                                return v_.v
+                            raise Unknown(f"abstract slice bound at line {s.lineno}")
+                        del o.items[slice(idx_(t.slice.lower), idx_(t.slice.upper), idx_(t.slice.step))]
+                        continue
+                    if isinstance(o, (ABytes, AList)):
+                        i_ = self.expr(t.slice, env)
+                        if isinstance(i_, AInt) and i_.v is not None:
+                            try:
+                                del o.items[i_.v]
+                            except IndexError:
+                                raise PyError('IndexError', s.lineno)
+                            continue
                     if isinstance(o, ADict):
                         k = self.key_of(self.expr(t.slice, env), s)
                         if k not in o.items:
@@ -419,6 +541,8 @@ class Interp:
         raise Unknown(f"dictionary key is abstract at line {getattr(node, 'lineno', 0)}")
 
     def iterate(self, it, node):
+        if isinstance(it, LazyGen):
+            return it
         if isinstance(it, ADict):
             return [AInt(k) if isinstance(k, int) else AStr([('lit', k)]) for k in it.items]
         if isinstance(it, AList):
@@ -444,7 +568,21 @@ class Interp:
                 raise Unknown(f"attribute store on {type(o).__name__}")
         elif isinstance(t, ast.Subscript):
             o = self.expr(t.value, env)
-            if isinstance(o, ADict):
+            if isinstance(o, (ABytes, AList)) and isinstance(t.slice, ast.Slice):
+                if isinstance(o, ABytes) and not o.mutable:
+                    raise PyError('TypeError', getattr(t, 'lineno', 0))
+                def idx_(x):
+                    if x is None:
+                        return None
+                    v_ = self.expr(x, env)
+                    if isinstance(v_, AInt) and v_.v is not None:
+                        return v_.v
+                    raise Unknown('abstract slice bound')
+                new = v.items if isinstance(v, (ABytes, AList)) else None
+                if new is None or t.slice.step is not None:
+                    raise Unknown('slice assignment')
+                o.items[slice(idx_(t.slice.lower), idx_(t.slice.upper))] = list(new)
+            elif isinstance(o, ADict):
                 o.items[self.key_of(self.expr(t.slice, env), t)] = v
             elif isinstance(o, AOpaque):
                 return
@@ -524,6 +662,8 @@ class Interp:
             return AInt(b[1])
         if b[0] == 's':
             return ALin(dict(b[1][0]), b[1][1], b[1][2])
+        if b[0] == 'x':
+            return AInt(None, [(('x',) + tuple(b[1:]), k) for k in range(8)])
         if b[0] == 'b':
             return AInt(None, list(b[1]))
         return AInt(None, None)
@@ -671,6 +811,13 @@ class Interp:
         if isinstance(e, ast.Await):
             return self.expr(e.value, env)
         if isinstance(e, ast.Yield):
+            import threading
+            g = getattr(threading.current_thread(), 'n2k_gen', None)
+            if g is not None:
+                g.out.put(('yield', self.expr(e.value, env) if e.value is not None else None))
+                if g.resume.get() == 'close':
+                    raise _GenClose()
+                return None
             if not getattr(self, '_yields', None):
                 raise Unknown(f"yield outside an interpreted generator at line {e.lineno}")
             self._yields[-1].append(self.expr(e.value, env) if e.value is not None else None)
@@ -716,6 +863,22 @@ class Interp:
                 r = cv(a) in [cv(x) for x in items]
                 return r if isinstance(op, ast.In) else not r
             raise Unknown(f"membership on abstract values at line {getattr(node, 'lineno', 0)}")
+        if isinstance(a, ABytes) and isinstance(b, ABytes) and isinstance(op, (ast.Eq, ast.NotEq)):
+            if len(a.items) != len(b.items):
+                r = False
+            else:
+                r = True
+                for x, y in zip(a.items, b.items):
+                    e_ = item_eq(x, y)
+                    if e_ is None:
+                        raise Unknown(f"comparison of byte strings with unknown contents at line {getattr(node, 'lineno', 0)}")
+                    if not e_:
+                        r = False
+                        break
+            return r if isinstance(op, ast.Eq) else not r
+        if isinstance(op, (ast.In, ast.NotIn)) and isinstance(a, ABytes) and isinstance(b, ABytes):
+            r = bytes_find(b.items, a.items) >= 0
+            return r if isinstance(op, ast.In) else not r
         if isinstance(op, (ast.Is, ast.IsNot)) and (a is None or b is None) and isinstance(a if b is None else b, (AFloat, AInt, ALin)):
             return isinstance(op, ast.IsNot)
         if isinstance(a, AFloat) or isinstance(b, AFloat):
@@ -868,7 +1031,7 @@ class Interp:
                 raise Unknown(f"abstract slice bound at line {getattr(x, 'lineno', 0)}")
             s = slice(idx(sl.lower), idx(sl.upper), idx(sl.step))
             if isinstance(o, ABytes):
-                return ABytes(o.items[s])
+                return ABytes(o.items[s], o.mutable)
             if isinstance(o, AList):
                 return AList(o.items[s])
             if isinstance(o, (tuple, list)):
@@ -1281,6 +1444,41 @@ class Interp:
                     return ABytes([fill] * max(0, n - len(o.items)) + o.items)
                 if m == 'hex':
                     return AStr([('hexbytes', list(o.items))])
+                if m in ('find', 'index', 'rfind') and args and isinstance(args[0], ABytes):
+                    lo = args[1].v if len(args) > 1 and isinstance(args[1], AInt) else 0
+                    hi = args[2].v if len(args) > 2 and isinstance(args[2], AInt) else None
+                    if lo is None or (len(args) > 2 and hi is None) or m == 'rfind':
+                        raise Unknown(f"bytes.{m} with these arguments at line {e.lineno}")
+                    hay = o.items if hi is None else o.items[:hi]
+                    if lo < 0:
+                        lo = max(0, len(o.items) + lo)
+                    r_ = bytes_find(hay, args[0].items, lo)
+                    if r_ < 0 and m == 'index':
+                        raise PyError('ValueError', e.lineno)
+                    return AInt(r_)
+                if m in ('startswith', 'endswith') and len(args) == 1 and isinstance(args[0], ABytes):
+                    k_ = len(args[0].items)
+                    part = o.items[:k_] if m == 'startswith' else (o.items[-k_:] if k_ else [])
+                    if len(part) != k_:
+                        return False
+                    for x, y in zip(part, args[0].items):
+                        e_ = item_eq(x, y)
+                        if e_ is None:
+                            raise Unknown(f"bytes.{m} on unknown contents at line {e.lineno}")
+                        if not e_:
+                            return False
+                    return True
+                if m == 'count' and len(args) == 1 and isinstance(args[0], ABytes) and args[0].items:
+                    c_, pos_ = 0, 0
+                    while True:
+                        pos_ = bytes_find(o.items, args[0].items, pos_)
+                        if pos_ < 0:
+                            break
+                        c_ += 1
+                        pos_ += len(args[0].items)
+                    return AInt(c_)
+                if m == 'copy' and not args:
+                    return ABytes(o.items, o.mutable)
                 if m == 'join':
                     out = []
                     for i, x in enumerate(self.iterate(args[0], e)):
